@@ -879,6 +879,7 @@ func (fr *Frame) localNames(at *ssa.BasicBlock, inclusive bool, st *State, names
 			}
 		}
 	}
+	u.applyAliases(names)
 	return doms
 }
 
